@@ -674,7 +674,7 @@ func TestC03(t *testing.T) {
 		if verdict == "violation" {
 			r.Hit("cross-principal-write", fmt.Sprintf("%s %s: state attributed to principal %d changed: %v (code=%d log=%.200s)", o.typ, o.sc, o.victim, diff, o.res.Code, o.res.Log), line)
 		}
-		unauthorisedScenario := o.sc == "a" || o.sc == "x" || o.sc == "w" || o.sc == "e" || o.sc == "e0" || strings.HasPrefix(o.sc, "d")
+		unauthorisedScenario := o.sc == "a" || o.sc == "x" || o.sc == "w" || o.sc == "wx" || o.sc == "e" || o.sc == "e0" || strings.HasPrefix(o.sc, "d")
 		if unauthorisedScenario && ok {
 			r.Hit("unauthorised-accepted", fmt.Sprintf("%s scenario %s was accepted", o.typ, o.sc), line)
 		}
@@ -984,7 +984,7 @@ func TestC03(t *testing.T) {
 		}
 		A, B := pick2(pool)
 		// applicable scenarios
-		scs := []string{"ok", "a", "b", "e", "e0", "x", "x", "xb", "xs", "w", "w", "ws"}
+		scs := []string{"ok", "a", "b", "e", "e0", "x", "x", "xb", "xs", "w", "w", "ws", "wx", "wx", "wxs"}
 		if m.NeedsAuthority {
 			scs = []string{"d", "d3", "gov", "e", "e0"}
 			if len(m.IdentityFields) > 0 && m.IdentityFields[0].Name == "Authority" {
@@ -1058,20 +1058,31 @@ func TestC03(t *testing.T) {
 				}
 				return fa.DeliverTx(A.acc, inner)
 			}
-		case "w", "ws":
+		case "w", "ws", "wx", "wxs":
 			// the message is dispatched by a CosmWasm contract as CosmosMsg::Any (account A stands for the contract's
 			// address): the chain only checks that the declared signer is the contract; no ante handler runs.
-			//   w : creator B, declared signer = the contract  -> nothing of B's may change
-			//   ws: the contract's own message                  -> as if the contract were an account
+			//   w  : creator B, declared signer = the contract  -> nothing of B's may change
+			//   ws : the contract's own message                  -> as if the contract were an account
+			//   wx : as w, but inside an authz.MsgExec whose grantee is the contract (wrapped once or twice)
+			//   wxs: as ws, wrapped
 			who := B
-			if sc == "ws" {
+			if sc == "ws" || sc == "wxs" {
 				who = A
+			}
+			wdepth := 0
+			if strings.HasPrefix(sc, "wx") {
+				wdepth = 1 + r.Rng.Intn(2)
 			}
 			msg = m.Build(w, who.acc, r.Rng, hostile)
 			o.creator = who.pid
 			deliver = func() FATxResult {
 				ZooSetMeta(msg, who.acc.Addr.String(), A.acc.Addr.String())
-				bz, err := fa.App().AppCodec().Marshal(msg.(interface {
+				var outer sdk.Msg = msg
+				for k := 0; k < wdepth; k++ {
+					ex := authz.NewMsgExec(A.acc.Addr, []sdk.Msg{outer})
+					outer = &ex
+				}
+				bz, err := fa.App().AppCodec().Marshal(outer.(interface {
 					Reset()
 					String() string
 					ProtoMessage()
@@ -1081,7 +1092,7 @@ func TestC03(t *testing.T) {
 				}
 				var derr error
 				b, herr := fa.WithDeliverCtx(func(ctx sdk.Context) error {
-					_, _, _, derr = fa.App().VerifWasmMessenger().DispatchMsg(ctx, A.acc.Addr, "", wasmvmtypes.CosmosMsg{Any: &wasmvmtypes.AnyMsg{TypeURL: sdk.MsgTypeURL(msg), Value: bz}})
+					_, _, _, derr = fa.App().VerifWasmMessenger().DispatchMsg(ctx, A.acc.Addr, "", wasmvmtypes.CosmosMsg{Any: &wasmvmtypes.AnyMsg{TypeURL: sdk.MsgTypeURL(outer), Value: bz}})
 					return derr
 				})
 				res := FATxResult{Height: b.Height}
